@@ -455,6 +455,9 @@ class Evaluator(object):
         elif isinstance(st, ast.Expr):
             if isinstance(st.value, ast.Constant):
                 return
+            if isinstance(st.value, ast.Name):
+                self.ev(st.value, loc)       # a bare name statement: NameError if unbound ("belief" sites such as NEVER)
+                return
             c = st.value
             if isinstance(c, ast.Call) and isinstance(c.func, ast.Attribute):
                 recv = self.ev(c.func.value, loc)
